@@ -254,6 +254,104 @@ def k_docstring(fn):
     return 0
 
 
+def _names(nodes, ctx):
+    out = []
+    for n in nodes:
+        for x in ast.walk(n):
+            if isinstance(x, ast.Name) and isinstance(x.ctx, ctx):
+                out.append(x)
+    return out
+
+
+def _extract_candidates(fn):
+    """(block list, i, j): statements blk[i:j] (2..5 of them) that can become a helper: no return / break / continue /
+    yield / nested def / global / del of a name inside, and no lambda or comprehension captures a name the block binds"""
+    local = {a.arg for a in fn.args.posonlyargs + fn.args.args + fn.args.kwonlyargs}
+    if fn.args.vararg:
+        local.add(fn.args.vararg.arg)
+    if fn.args.kwarg:
+        local.add(fn.args.kwarg.arg)
+    local |= {x.id for x in ast.walk(fn) if isinstance(x, ast.Name) and isinstance(x.ctx, ast.Store)}
+    cands = []
+    for blk in blocks_of(fn):
+        for size in (4, 3, 2):
+            for i in range(0, len(blk) - size + 1):
+                sub_ = blk[i:i + size]
+                bad = False
+                for s_ in sub_:
+                    for x in ast.walk(s_):
+                        if isinstance(x, (ast.Return, ast.Break, ast.Continue, ast.Yield, ast.YieldFrom, ast.Await,
+                                          ast.FunctionDef, ast.AsyncFunctionDef, ast.ClassDef, ast.Global, ast.Nonlocal,
+                                          ast.Delete, ast.Lambda, ast.NamedExpr, ast.Import, ast.ImportFrom)):
+                            bad = True
+                if bad:
+                    continue
+                if all(isinstance(s_, ast.Expr) and isinstance(s_.value, ast.Constant) for s_ in sub_):
+                    continue
+                cands.append((blk, i, i + size))
+    return cands, local
+
+
+def _do_extract(fn, tree_body, which):
+    cands, local = _extract_candidates(fn)
+    if not cands:
+        return 0
+    blk, i, j = cands[0] if which == 0 else cands[-1]
+    sub_ = blk[i:j]
+    inside = {id(x) for s_ in sub_ for x in ast.walk(s_)}
+    stores = [x.id for x in _names(sub_, ast.Store)]
+    # reads: local names loaded in the block (conservatively all of them, also those written first)
+    reads = []
+    for x in _names(sub_, ast.Load):
+        if x.id in local and x.id not in reads:
+            reads.append(x.id)
+    # comprehension targets are not function locals
+    comp_t = {y.id for s_ in sub_ for c in ast.walk(s_) if isinstance(c, ast.comprehension) for y in ast.walk(c.target)
+              if isinstance(y, ast.Name)}
+    stores = [s_ for s_ in stores if s_ not in comp_t or s_ in local - comp_t]
+    # a name both written in the block and read anywhere outside it is an output
+    outside_loads = {x.id for x in ast.walk(fn) if isinstance(x, ast.Name) and isinstance(x.ctx, ast.Load)
+                     and id(x) not in inside}
+    outs = []
+    for s_ in stores:
+        if s_ in outside_loads and s_ not in outs:
+            outs.append(s_)
+    # a written name that is also an input must exist before the call; if it might not (first binding happens inside the
+    # block), passing it would raise: only pass names that are bound before the block on every path - approximated by
+    # "has a store or is a parameter textually before the block"
+    first_line = sub_[0].lineno
+    params = {a.arg for a in fn.args.posonlyargs + fn.args.args + fn.args.kwonlyargs}
+    bound_before = params | {x.id for x in ast.walk(fn) if isinstance(x, ast.Name) and isinstance(x.ctx, ast.Store)
+                             and x.lineno < first_line and id(x) not in inside}
+    if any(r not in bound_before for r in reads):
+        # names first bound inside the block and read later inside it are plain helper locals: drop them from the inputs
+        reads = [r for r in reads if r in bound_before]
+        for x in _names(sub_, ast.Load):
+            if x.id in local and x.id not in bound_before and x.id not in stores:
+                return 0
+    hname = "_refuzz_helper"
+    ret = None
+    if len(outs) == 1:
+        ret = ast.Return(value=ast.Name(id=outs[0], ctx=ast.Load()))
+    elif outs:
+        ret = ast.Return(value=ast.Tuple(elts=[ast.Name(id=o, ctx=ast.Load()) for o in outs], ctx=ast.Load()))
+    helper = ast.FunctionDef(name=hname, args=ast.arguments(posonlyargs=[], args=[ast.arg(arg=r) for r in reads],
+                                                            kwonlyargs=[], kw_defaults=[], defaults=[]),
+                             body=list(sub_) + ([ret] if ret else []), decorator_list=[], type_params=[])
+    call = ast.Call(func=ast.Name(id=hname, ctx=ast.Load()), args=[ast.Name(id=r, ctx=ast.Load()) for r in reads],
+                    keywords=[])
+    if not outs:
+        new = ast.Expr(value=call)
+    elif len(outs) == 1:
+        new = ast.Assign(targets=[ast.Name(id=outs[0], ctx=ast.Store())], value=call)
+    else:
+        new = ast.Assign(targets=[ast.Tuple(elts=[ast.Name(id=o, ctx=ast.Store()) for o in outs], ctx=ast.Store())],
+                         value=call)
+    blk[i:j] = [new]
+    tree_body.append(helper)
+    return 1
+
+
 KW_TABLE = None
 
 
@@ -278,7 +376,7 @@ def k_keywords(fn, modname=None):
     return n
 
 
-KINDS = {"invert": k_invert, "unelse": k_unelse, "enelse": k_enelse, "merge": k_merge, "split": k_split,
+KINDS = {"extract": None, "extract2": None, "invert": k_invert, "unelse": k_unelse, "enelse": k_enelse, "merge": k_merge, "split": k_split,
          "explain": k_explain, "unloop": k_unloop, "reloop": k_reloop, "docstring": k_docstring, "keywords": k_keywords}
 
 
@@ -334,7 +432,10 @@ def make_variant(relpath, modname, qual, kind):
     tree = ast.parse(src_)
     for q, fn in functions_of(tree):
         if q == qual:
-            n = KINDS[kind](fn, modname) if kind == "keywords" else KINDS[kind](fn)
+            if kind in ("extract", "extract2"):
+                n = _do_extract(fn, tree.body, 0 if kind == "extract" else 1)
+            else:
+                n = KINDS[kind](fn, modname) if kind == "keywords" else KINDS[kind](fn)
             if not n:
                 return None
             ast.fix_missing_locations(tree)
